@@ -351,7 +351,7 @@ class NextCmcAtCallSite(Contract):
 class _InvUnit(Contract):
     use_at_call_sites = False
     props = ("C05", "C04")
-    timeout_ms = 60000
+    timeout_ms = 120000
 
     def local_contracts_for(self, cfg):
         return {NextCmcAtCallSite.target: NextCmcAtCallSite()}
@@ -557,7 +557,7 @@ class ClosedStateIsDetermined(Lemma):
     flush_buffer / close above; this lemma is pure logic over INV.)"""
     name = "lemma:closed-minishard-is-a-function-of-the-stored-map(order-and-strategy-independence)"
     props = ("C05",)
-    timeout_ms = 60000
+    timeout_ms = 120000
 
     def run(self, c, cfg):
         spec = mk_shard_spec(c, bits_bound=65)
@@ -621,7 +621,7 @@ class StoreBufferedKeepsInv(Lemma):
     buffer' == buffer[cmc := encoded chunk], nothing else changes) keeps INV for S' = S[cmc := encoded]"""
     name = "lemma:store(buffered)-keeps-INV-for-the-updated-stored-map"
     props = ("C05",)
-    timeout_ms = 60000
+    timeout_ms = 120000
 
     def run(self, c, cfg):
         obj, st, G = mk_inv_minishard(c)
